@@ -4,11 +4,17 @@ sys.path.insert(0, os.path.dirname(os.path.dirname(os.path.abspath(__file__))))
 import vlib
 
 PID = "C11"
-LEAN_MODULES = ["QbiceVerif.Props.C11"]
+LEAN_MODULES = ["QbiceVerif.Props.C11", "QbiceVerif.Props.NonVacuity.C11"]
 DRIVER = "drv_kv"
 HARNESS_BIN = "kv"
 HARNESS_FEATURES = "backends"
-PARTIAL = []
+PARTIAL = [
+    "kv_refines_spec is proved under `CmdOk`: every type id is used with ONE column kind (exactly what excludes the "
+    "trigger of known finding F19: both backends cache the column family by type id alone) and Fjall keys are "
+    "<= 65535 bytes; it is an as-is partial statement in the sense of DESIGN 2.4. get/scan_ignores_open_batches and "
+    "reopen_keeps_content are true by inspection of the model (commit = one atomic write is a modelling "
+    "assumption about RocksDB/Fjall, exercised by the real-backend correspondence and the concurrent atomicity probe).",
+]
 ASSUMPTIONS = [
     "the serializer's encoding of keys, discriminants and elements is a parameter of the theorems: "
     "`PrefixFree enc` for wide-column keys and discriminants (self-delimiting codec, C12's decode_encode), "
